@@ -135,6 +135,27 @@ Viol(pre, a, r, ack, post, diff, dbal, o1, o2, bornNow, overNow) ==
 
 Report(ln, viol) == \A v \in viol : PrintT(<<"MONFAIL", ln.tr, ln.i, v>>)
 
+\* scenario coverage (vacuity floors of the runner): printed as <<"COVER", name>>
+Cover(pre, a, r, post, bornNow) ==
+    LET C(name, cond) == IF cond THEN PrintT(<<"COVER", name>>) ELSE TRUE
+        own == IF a.a \in {"Register", "OpenInit", "SendTx"} THEN a.owner ELSE "O1"
+    IN /\ C("reopen-completed", \E ow \in Owners : pre.A.active[ow] # -1 /\ post.A.active[ow] # pre.A.active[ow])
+       /\ C("reopen-with-different-ordering-or-metadata-rejected",
+             a.a \in {"Register", "OpenInit"} /\ r # "ok" /\ pre.A.active[own] # -1 /\ ActiveA(pre, own).st = "CLOSED"
+             /\ (a.a = "OpenInit" => a.cpport = "icahost") /\ (a.a = "Register" => a.signer = a.owner)
+             /\ <<ActiveA(pre, own).order, ActiveA(pre, own).enc>> # <<a.order, a.enc>>)
+       /\ C("class-inflight-ack", a.a = "Ack" /\ ChanAt(pre.A.chans, a.ca).owner \in Owners /\ a.ca \in DOMAIN bornNow
+             /\ pre.A.active[ChanAt(pre.A.chans, a.ca).owner] # -1 /\ bornNow[a.ca] # pre.A.active[ChanAt(pre.A.chans, a.ca).owner])
+       /\ C("class-host-confirm-overwrite", a.a = "Confirm" /\ ChanAt(pre.B.chans, a.cb).owner \in Owners
+             /\ pre.B.active[ChanAt(pre.B.chans, a.cb).owner] \notin {-1, a.cb} /\ ActiveB(pre, ChanAt(pre.B.chans, a.cb).owner).st # "CLOSED")
+       /\ C("init-by-stranger-accepted", a.a = "OpenInit" /\ r = "ok" /\ a.signer # a.owner)
+       /\ C("sendtx-by-stranger-rejected", a.a = "SendTx" /\ r # "ok" /\ a.signer # a.owner /\ ActiveA(pre, a.owner).st = "OPEN")
+       /\ C("second-init-while-handshake-in-flight", a.a \in {"Register", "OpenInit"} /\ r = "ok"
+             /\ \E n \in ChanNos(pre.A.chans) : pre.A.chans[n + 1].owner = a.owner /\ pre.A.chans[n + 1].st = "INIT")
+       /\ C("ack-while-active-open-rejected", a.a = "Ack" /\ r # "ok" /\ ChanAt(pre.A.chans, a.ca).st = "INIT"
+             /\ ChanAt(pre.A.chans, a.ca).owner \in Owners /\ ActiveA(pre, ChanAt(pre.A.chans, a.ca).owner).st = "OPEN")
+       /\ C("ordered-channel-closed-by-timeout", a.a = "Timeout" /\ r = "ok" /\ ChanAt(post.A.chans, a.ca).st = "CLOSED")
+
 (***************************************************************************)
 (* Trace behaviour                                                         *)
 (***************************************************************************)
@@ -164,6 +185,7 @@ TraceNext ==
                 acked == IF a.a = "Ack" /\ ln.res = "ok" /\ ChanAt(S.A.chans, a.ca).owner \in Owners THEN {a.ca} ELSE {}
                 ov2  == [n \in (DOMAIN over) \cup acked |-> IF n \in acked THEN S.A.active[ChanAt(S.A.chans, a.ca).owner] ELSE over[n]]
             IN /\ Report(ln, Viol(S, a, ln.res, ln.ack, post, SetOf(ln.diff), SetOf(ln.dbal), obs, ln.st, b2, ov2))
+               /\ Cover(S, a, ln.res, post, b2)
                /\ S' = post /\ obs' = ln.st /\ born' = b2 /\ over' = ov2
                /\ l' = l + 1
     /\ (l + 1 = Len(Trace) => PrintT(<<"CONSUMED", l + 1>>))
